@@ -496,8 +496,6 @@ class C14(PropBase):
             skipped = dump_tid is not None and t["id"] == dump_tid
             if skipped != (f[2] == "1"):
                 return "call stack %d: dump-writer thread %s skipped" % (i, "not" if skipped else "wrongly")
-            if skipped:
-                continue
             want = None
             for (nid, rd, nm) in c.names:
                 if nid == t["id"] and rd:
